@@ -539,6 +539,42 @@ def rule_update(chk, ci, concrete):
                    detail_bad='with caching on, not every cache is invalidated after re-binning', detail_ok='for cache in self.cache: cache.update() after binning')
     else:
         chk.violated('results-not-stale', 'update:all-caches-invalidated', node=up, file=NB, func='NNPS.update', detail='caches are never invalidated on update()')
+    # update() refreshes the caches only while caching is on (the guard checked above), so whatever switches caching on after construction must itself invalidate every cache:
+    # lists filled before caching was switched off describe the particles as they were then
+    from verif_static import paths as PT_
+    ncls = M.find_class(M.cy(NB), 'NNPS')
+    gated = bool(cupd) and M.enclosing(g.nodes[cupd[0]].ast, (ast.If,)) is not None
+    nsw = 0
+    for mname, mfn in sorted(M.methods(ncls).items()):
+        if mname in ('__init__', '__cinit__'):
+            continue
+        if not any(isinstance(a, ast.Assign) and compact(a.targets[0]) == 'self.use_cache' for a in ast.walk(mfn)):
+            continue
+        nsw += 1
+        bad_p = None
+        for p_ in PT_.enumerate_paths(M.docstring_stripped(mfn.body)):
+            st = [(i, e) for i, e in enumerate(p_) if e.kind == 'stmt' and isinstance(e.node, ast.Assign) and compact(e.node.targets[0]) == 'self.use_cache']
+            if not st:
+                continue
+            i0, e0 = st[-1]
+            val = compact(PT_.resolve(e0.node.value, e0.env))
+            if val in ('False', '0') or PT_.took(p_, False, val, 'self.use_cache') is not None:
+                continue            # switched off on this path
+            # every cache invalidated: a loop over self.cache after the store whose body calls update() on the loop variable; the zero-trip path has no cache to invalidate
+            lp = [(i, e) for i, e in enumerate(p_) if i > i0 and e.kind == 'loop' and isinstance(e.node, ast.For) and compact(e.node.iter) == 'self.cache']
+            okp = False
+            for i, e in lp:
+                tv = U(e.node.target)
+                direct = [x for x in e.node.body if isinstance(x, ast.Expr) and isinstance(x.value, ast.Call) and M.call_name(x.value) == tv + '.update']
+                if direct:
+                    okp = True
+            if not okp and not (not gated and bool(cupd)):
+                bad_p = bad_p or [compact(PT_.resolve(e.node, e.env)) + ' is %s' % e.truth for e in p_ if e.kind == 'cond']
+        chk.decide(bad_p is None, 'results-not-stale', '%s:switching-the-cache-on-invalidates-it' % mname, node=mfn, file=NB, func='NNPS.' + mname,
+                   detail_bad='NNPS.%s sets self.use_cache on a path (%s) that does not call update() on every cache of self.cache, while NNPS.update() skips the caches as long as caching is '
+                              'off: after set_use_cache(False); <particles move>; update(); set_use_cache(True) every query is answered from the lists of the old positions' % (mname, bad_p),
+                   detail_ok='for cache in self.cache: cache.update() on every path that may switch caching on')
+    chk.floor('methods that switch the neighbour cache', nsw, 1)
     # context re-established after re-allocation and before first use
     ok = bool(ctx) and bool(refresh) and binloop is not None and g.dominates(refresh[0], ctx[0]) and g.dominates(binloop, ctx[0])
     if ok:
@@ -1377,7 +1413,10 @@ def rule_level_stencil(chk):
     from verif_static import paths as PT
     rel = 'pysph/base/stratified_hash_nnps.pyx'
     t = M.cy(rel)
-    fn = M.find_func(M.find_class(t, 'StratifiedHashNNPS'), 'find_nearest_neighbors')
+    cls_ = M.find_class(t, 'StratifiedHashNNPS')
+    # one-line helpers (`_get_h_max`) written in place and locals that merely name an attribute (`level_sizes = self.current_cells`) written out: the level's radius is then the
+    # same expression whether the method calls the helper, keeps the product in a local or hoists the attributes first
+    fn = M.self_aliases_inlined_deep(M.inline_helpers(cls_, M.find_func(cls_, 'find_nearest_neighbors'), keep=set(n_ for n_ in M.methods(cls_) if n_ != '_get_h_max')))
     who = 'StratifiedHashNNPS.find_nearest_neighbors'
     n, bad = 0, None
     hq = None
@@ -1392,8 +1431,10 @@ def rule_level_stencil(chk):
                 bad = bad or 'the cell of the query is not computed before the boxes'
                 continue
             edge = PT.resolve(cells[-1].args[3], env)
-            lv = [x for x in ast.walk(edge) if isinstance(x, ast.Call) and (M.call_name(x) or '').endswith('_get_h_max')]
-            if not lv or not same(edge, '(%s)/self.H' % U(lv[0])):
+            # the level's radius L is whatever the span is normalised by: H_level = ceil(fmax(.., L)*self.H/L); the cells of the level must then be L/self.H wide
+            cands = [a_ for x in ast.walk(Hx) if isinstance(x, ast.Call) and M.call_name(x) in ('fmax', 'max') and len(x.args) == 2 for a_ in x.args]
+            lv = [a_ for a_ in cands if same(edge, '(%s)/self.H' % U(a_)) and 'current_cells' in U(a_)]
+            if not lv:
                 bad = bad or 'cells of a level are %s wide' % U(edge)[:80]
                 continue
             L = U(lv[0])
